@@ -1,9 +1,13 @@
-(* Properties/C17.v — decode failures carry the Thrift exception type for their cause
-   (groundwork: the in-memory thrift.Binary readers, ReadMessageBegin, and the stream reader's
-   wrapping of source errors; the skip entry points are added from the skipper models).
-   Only statements; every proof is [exact <lemma>] from Proofs/ErrTypesP.v. *)
+(* Properties/C17.v — decode failures carry the Thrift exception type for their cause:
+   the in-memory thrift.Binary readers, ReadMessageBegin, the stream reader's wrapping of source
+   errors, and the skippers (Binary.Skip; BytesSkipDecoder / SkipDecoder / ReaderSkipDecoder;
+   BufferReader.Skip).
+   Only statements; every proof is [exact <lemma>] from Proofs/ErrTypesP.v, ErrTypesSkip*.v. *)
 From GV Require Import Lib.Bytes Lib.Res Gen.Consts Model.Binary Model.BufReader Model.ErrTypes Spec.ErrKinds
      Proofs.ErrTypesP.
+From GV Require Spec.ThriftGrammar.
+From GV Require Import Model.Skip Model.StreamSkip Model.SkipDecoders Spec.RefParse Spec.SkipCauses
+     Proofs.StreamSkipInst Proofs.ErrTypesSkipP Proofs.ErrTypesSkipExactP Proofs.ErrTypesSkipStreamP Proofs.ErrTypesSkipInst.
 Open Scope N_scope.
 
 (* the exception codes the property names, as exception.go defines them now *)
@@ -89,3 +93,120 @@ Example C17_stream_wrap_occurs :
   snd (s_item KI32 (new_reader {| sdata := [1; 2]; sfinal := e_eof; swith := false; schunks := []; spos := 0 |}))
   = SErr (SWrap e_eof).
 Proof. vm_compute. reflexivity. Qed.
+
+(* ======================= the skippers ======================= *)
+
+(* What [skip_causes] is: the set of causes at the failure point of the C08 reference parse [rp]
+   (budget 64), exactly.  Where rp says "truncated" or "negative size" the set is that single
+   cause; an unknown type may also be called truncation when no byte is left for the value; an
+   exhausted budget may also be called truncation when no byte is left, and unknown type when the
+   value's type byte is unknown.  Nothing else is tolerated. *)
+Theorem C17_skip_causes_exact : forall i t b,
+  match rp i ref_depth t b with
+  | Ok _ => skip_causes i t b = []
+  | Err e =>
+    (e = ThriftGrammar.E_TRUNC /\ skip_causes i t b = [CTrunc]) \/
+    (e = ThriftGrammar.E_NEGSIZE /\ skip_causes i t b = [CNeg]) \/
+    (e = ThriftGrammar.E_BADTYPE /\ (skip_causes i t b = [CUnknownType] \/ skip_causes i t b = [CTrunc; CUnknownType])) \/
+    (e = E_DEPTH /\ (skip_causes i t b = [CDepth] \/ skip_causes i t b = [CTrunc; CDepth] \/
+                     skip_causes i t b = [CUnknownType; CDepth] \/ skip_causes i t b = [CTrunc; CUnknownType; CDepth]))
+  | _ => False
+  end.
+Proof. exact skip_causes_exact. Qed.
+
+(* no plain misclassification is tolerated *)
+Theorem C17_skip_negative_only_negative : forall i t b, cause_allowed i t b CNeg = true ->
+  rp i ref_depth t b = Err ThriftGrammar.E_NEGSIZE /\ skip_causes i t b = [CNeg].
+Proof. exact skip_causes_neg_only. Qed.
+Theorem C17_skip_negative_never_truncation : forall i t b, rp i ref_depth t b = Err ThriftGrammar.E_NEGSIZE ->
+  cause_allowed i t b CTrunc = false.
+Proof. exact skip_causes_trunc_when_neg. Qed.
+Theorem C17_skip_depth_only_without_budget : forall i t b, cause_allowed i t b CDepth = true ->
+  rp i ref_depth t b = Err E_DEPTH.
+Proof. exact skip_causes_depth_only. Qed.
+Theorem C17_skip_truncation_only_truncation : forall i t b, rp i ref_depth t b = Err ThriftGrammar.E_TRUNC ->
+  skip_causes i t b = [CTrunc].
+Proof. exact skip_causes_trunc_only. Qed.
+
+(* skip_err_typed (DESIGN 5 C17): every failure of thrift.Binary.Skip, for every byte string and
+   every type byte, is a protocol exception of type INVALID_DATA, NEGATIVE_SIZE or DEPTH_LIMIT, the
+   type its cause demands, and the cause it names is one that applies at the failure point of the
+   reference parse *)
+Theorem C17_skip_err_typed : forall b t c, wf b -> t < 256 -> binary_skip b t = Err c ->
+  In (etype c) [thrift_INVALID_DATA; thrift_NEGATIVE_SIZE; thrift_DEPTH_LIMIT] /\
+  exists cz, code_cause c = Some cz /\ etype c = cause_type cz /\ cause_allowed inl_all t b cz = true.
+Proof. exact skip_err_typed. Qed.
+
+Theorem C17_skip_ok_iff_no_cause : forall b t, wf b -> t < 256 ->
+  ((exists n, binary_skip b t = Ok n) <-> skip_causes inl_all t b = []).
+Proof. exact skip_ok_iff_no_cause. Qed.
+
+(* The skippers that read through a source.  [skip_fail_ok i t b Src c]: the failure [c] is one of
+   the skipper's own protocol errors (typed and allowed as above) or an error of the source, and
+   then the reference parse fails by truncation and by nothing else.
+   BytesSkipDecoder.Next: the "source" is the slice, its end-of-input error is io.EOF, handed out
+   as it is. *)
+Theorem C17_bytes_decoder_err_typed : forall b t s c, wf b -> t < 256 ->
+  bs_next (bs_new b) t = (s, Err c) -> skip_fail_ok inl_none t b (fun x => x = e_eof) c.
+Proof. exact bs_next_err_typed. Qed.
+
+(* ReaderSkipDecoder.Next, for EVERY scripted source (any fragmentation incl. empty reads, any
+   final error value, data delivered with the error): the source's error is handed out as it is *)
+Theorem C17_readfull_decoder_err_typed : forall src blen t s c,
+  wf (sdata src) -> spos src <= len (sdata src) -> t < 256 ->
+  rf_next (rf_new src blen) t = (s, Err c) ->
+  skip_fail_ok inl_none t (drop (spos src) (sdata src)) (fun x => x = sfinal src) c.
+Proof. exact rf_next_err_typed. Qed.
+
+(* SkipDecoder.Next over the buffered reader (SAt: a reachable reader state at cursor c of stream
+   S over a script that cannot stall): the reader's error is handed out as it is *)
+Theorem C17_peek_decoder_err_typed : forall S c st rn0 t s' e,
+  wf S -> SAt S c st -> c <= len S -> t < 256 ->
+  pk_next {| pk_r := st; pk_rn := rn0 |} t = (s', Err e) ->
+  skip_fail_ok inl_none t (drop c S) (fun x => (0 <= x < 99)%Z) e.
+Proof. exact pk_next_err_typed. Qed.
+
+(* BufferReader.Skip: the reader's error arrives wrapped by NewProtocolExceptionWithErr
+   (code 100 + e of the skipper model = SWrap e of Model/ErrTypes.v: C17_wrap_matches) *)
+Theorem C17_bufferreader_skip_err_typed : forall S c st t st' e,
+  wf S -> SAt S c st -> c <= len S -> t < 256 ->
+  br_skip st t = (st', Err e) ->
+  skip_fail_ok inl_br t (drop c S) (fun x => exists y, x = e_wrap y /\ (0 <= y < 99)%Z) e.
+Proof. exact br_skip_err_typed. Qed.
+
+(* non-vacuity: each cause occurs on Binary.Skip; the seeded misclassification witness (a LIST<I32>
+   with count -1) demands NEGATIVE_SIZE and nothing else; the tolerated ambiguities occur *)
+Example C17_skip_causes_occur :
+  binary_skip [8; 255; 255; 255; 255] 15 = Err e_neg_size /\ skip_causes inl_all 15 [8; 255; 255; 255; 255] = [CNeg] /\
+  binary_skip [8; 255; 255; 255] 15 = Err e_too_short /\ skip_causes inl_all 15 [8; 255; 255; 255] = [CTrunc] /\
+  binary_skip [1; 0; 0; 0; 1; 0] 15 = Err e_unknown_type /\ skip_causes inl_all 15 [1; 0; 0; 0; 1; 0] = [CUnknownType] /\
+  binary_skip [1; 0; 0; 0; 1] 15 = Err e_too_short /\ skip_causes inl_all 15 [1; 0; 0; 0; 1] = [CTrunc; CUnknownType] /\
+  snd (bs_next (bs_new [1; 0; 0; 0; 1]) 15) = Err e_unknown_type /\
+  binary_skip [0] 1 = Err e_unknown_type /\ binary_skip [8; 0; 0; 0; 0] 15 = Ok 5.
+Proof. vm_compute. repeat split; reflexivity. Qed.
+
+Example C17_skip_depth_occurs :
+  let nest n := concat (repeat [15; 0; 0; 0; 1] n) in
+  binary_skip (nest 64%nat ++ [2; 0; 0; 0; 0]) 15 = Err e_depth /\
+  skip_causes inl_all 15 (nest 64%nat ++ [2; 0; 0; 0; 0]) = [CDepth] /\
+  binary_skip (nest 64%nat) 15 = Err e_too_short /\
+  skip_causes inl_all 15 (nest 64%nat) = [CTrunc; CDepth] /\
+  snd (bs_next (bs_new (nest 64%nat)) 15) = Err e_depth /\
+  binary_skip (nest 63%nat ++ [2; 0; 0; 0; 0]) 15 = Ok 320.
+Proof. vm_compute. repeat split; reflexivity. Qed.
+
+Example C17_skip_stream_occurs :
+  let s d := {| sdata := d; sfinal := e_injected; swith := false; schunks := [2; 1]; spos := 0 |} in
+  SAt [8; 0; 0; 0; 2; 0; 0] 0 (new_reader (s [8; 0; 0; 0; 2; 0; 0])) /\
+  snd (br_skip (new_reader (s [8; 0; 0; 0; 2; 0; 0])) 15) = Err (e_wrap e_injected) /\
+  snd (pk_next (pk_new (new_reader (s [8; 0; 0; 0; 2; 0; 0]))) 15) = Err e_injected /\
+  snd (rf_next (rf_new (s [11; 0; 0; 0; 1; 0; 0]) 0) 15) = Err e_injected /\
+  snd (br_skip (new_reader (s [8; 255; 255; 255; 255])) 15) = Err e_neg_size /\
+  snd (bs_next (bs_new [8; 0; 0; 0; 2; 0; 0]) 15) = Err e_eof.
+Proof.
+  cbv zeta. split.
+  { apply (sat_new_reader {| sdata := [8; 0; 0; 0; 2; 0; 0]; sfinal := e_injected; swith := false;
+                             schunks := [2; 1]; spos := 0 |}); [reflexivity|reflexivity|].
+    split; [discriminate|reflexivity]. }
+  vm_compute. repeat split; reflexivity.
+Qed.
